@@ -1564,6 +1564,13 @@ func (r *Raft) InstallSnapshot(
 		r.logger.Fatalf("failed to discard log entries: error = %v", err)
 	}
 
+	// Fall back to the committed configuration if the current one came from
+	// an entry that was just discarded - it was never committed. This is the
+	// same fall back as when such an entry is truncated.
+	if r.committedConfiguration != nil && r.configuration.Index > r.committedConfiguration.Index {
+		r.nextConfiguration(r.committedConfiguration)
+	}
+
 	// Update the configuration.
 	r.applyConfiguration(request.Configuration)
 
